@@ -174,3 +174,13 @@ Example C02_monitor_rejects_allowance_above_cap :
      (cl, out, evs, {| o_now := o_now o; o_supply := o_supply o; o_bal := o_bal o;
                        o_allow := [((0%N, 1%N), ((41, 120), 120))]; o_extra := o_extra o |})) 1 ex_trace) = 2%N.
 Proof. vm_compute. reflexivity. Qed.
+(* (8) persistence: an allowance that disappears while time passes although its live_until (120) has
+   not passed (ledger 120), and a balance that lapses across an Advance *)
+Example C02_monitor_rejects_state_lapsing_over_time :
+  c02_monitor (corrupt (fun '(cl, out, evs, o) =>
+     (cl, out, evs, {| o_now := o_now o; o_supply := o_supply o; o_bal := o_bal o;
+                       o_allow := []; o_extra := o_extra o |})) 6 ex_trace) = 7%N /\
+  c02_monitor (corrupt (fun '(cl, out, evs, o) =>
+     (cl, out, evs, {| o_now := o_now o; o_supply := o_supply o; o_bal := alist_set 0%N 0 (o_bal o);
+                       o_allow := o_allow o; o_extra := o_extra o |})) 6 ex_trace) = 7%N.
+Proof. vm_compute. split; reflexivity. Qed.
